@@ -93,11 +93,19 @@ Recalced(s) ==
   IF s.recalc
   THEN With(Recalc(s.pts, QMul(Rr, s.M), s.Zb), LAMBDA p : [s EXCEPT !.pts = p, !.queue = AllEntries(p), !.recalc = FALSE])
   ELSE s
-PopChoices(s) == MaxEntries(Recalced(s).queue)
+(* GetDataItemWithMaxGlobalR: an empty queue is refilled first *)
+Refilled(s) == IF s.queue = {} THEN [s EXCEPT !.queue = AllEntries(s.pts)] ELSE s
+PopChoices(s) == MaxEntries(Refilled(Recalced(s)).queue)
+(* If failed evaluations have drained the queue down to the entry of the left end item (key -inf; RefillQueue inserts it too),   *)
+(* the code pops that item, finds no left neighbour and raises ("Left point is NONE") before any evaluation: modelled as an      *)
+(* aborted iteration.  Once the queue is empty the next request refills it.                                                       *)
 BeginIter(s, e) ==
   With(Recalced(s), LAMBDA s1 :
     With(IndexOfX(s1.pts, e[1]), LAMBDA t :
       With(s1.pts, LAMBDA p :
+        IF t = 1
+        THEN [s1 EXCEPT !.queue = @ \ {e}, !.pc = IF s1.insolve THEN "solvetail" ELSE "idle", !.fault = TRUE, !.broken = TRUE, !.left = 0]
+        ELSE
         [s1 EXCEPT !.pc = "eval", !.t = t, !.queue = @ \ {e},
                    !.minD = InfMin(@, p[t].d), !.cds = Append(@, p[t].d),
                    !.nx = NextX(p[t - 1].x, p[t].x, p[t - 1].z, p[t].z, Rr, s1.M)])))
